@@ -261,6 +261,34 @@ def fam_navigation(tier):
     return "navigation", SETUP, cases, True
 
 
+NAV_WALK = (["ZoomInAll"] + ["MoveNext"] * 6 + ["MovePrevious"] * 3 + ["ZoomOut", "ZoomIn", "MoveNext", "ReadCurrent", "DescribeCurrent", "WhereAmI", "MoveEnd", "MovePrevious", "ReadPrevious",
+            "MoveStart", "ReadNext", "DescribeNext", "ZoomOutAll", "ZoomIn", "ZoomIn", "MoveCellNext", "MoveCellDown", "MoveColumnStart", "MoveLineEnd", "MoveLastLocation", "WhereAmIAll",
+            "ToggleSpeakMode", "MoveNext", "MovePrevious", "ToggleZoomLockDown", "MoveNext", "ZoomOut"])
+
+
+def fam_navwalk(tier):
+    """a fixed walk of %d navigation commands over every depth-1 term, trigger term and single deviation with missing/empty parts, in each navigation mode"""
+    corp = []
+    for sh in terms.spine_shapes(1):
+        corp.append((terms.shape_name(sh), terms.build(sh, terms.Filler("mixed"))))
+    for name, t in canon_run.special_terms():
+        corp.append(("special:" + name, t))
+    keep = ("none", "mprescripts", "empty-mrow", "empty-mi", "empty-mo", "delete", "mspace", "mphantom", "dup", "ins-emptybase-sup", "ins-emptybase-subsup", "wrap-mrow")
+    base = list(corp) if tier == "thorough" else [c for c in corp if not c[0].startswith("special:")]
+    for label, t in base:
+        for dl, dt in terms.deviations(t):
+            if dl.split("@")[0] in keep:
+                corp.append((label + "|" + dl, dt))
+    cases = []
+    for mode in ("Enhanced", "Simple", "Character"):
+        for label, t in corp:
+            cases.append((f"navwalk:{mode}:{label}", [["pref", "NavMode", mode], ["mathml", terms.doc(t)]] + [["nav", c] for c in NAV_WALK] + [["navid"], ["navmml"], ["brpos"]]))
+    return "navwalk", SETUP, cases, True
+
+
+fam_navwalk.__doc__ = fam_navwalk.__doc__ % len(NAV_WALK)
+
+
 def fam_histories(tier):
     alpha = {
         "no-rules-dir": ["rules_dir", ""], "bad-rules-dir": ["rules_dir", "/nonexistent"], "good-rules-dir": ["rules_dir", mcx.RULES],
@@ -328,7 +356,7 @@ def main(tier):
         print("MACHINERY-ERROR property=C08: baseline unstable or failing:", short(b1, 200))
         return 2
     only = os.environ.get("VERIF_C08_FAMILY")
-    fams = [fam_truncations(tier), fam_rename(tier), fam_deviations(tier), fam_texts(tier), fam_ladders(tier), fam_navigation(tier), fam_histories(tier), fam_prefs(tier)] + fam_codes(tier) + fam_intents(tier)
+    fams = [fam_truncations(tier), fam_rename(tier), fam_deviations(tier), fam_texts(tier), fam_ladders(tier), fam_navigation(tier), fam_navwalk(tier), fam_histories(tier), fam_prefs(tier)] + fam_codes(tier) + fam_intents(tier)
     jobs = []
     import time as _t
     for family, setup, cases, rec in fams:
@@ -351,10 +379,10 @@ def main(tier):
         rule="families: truncation of every corpus document at every byte; every element of every depth-1 / trigger term renamed to each of %d element names; the C01 deviation space "
              "(incl. the library's own marker attributes); %d token texts x 5 token kinds x 9 hosts x 4 mathvariants; nesting ladders (12 constructs x depths 10, 24, 40, 300%s) and wide rows; navigation: "
              "%d commands x 5 expressions (from the root and after ZoomInAll), key codes x 16 modifier sets, set_navigation_node over ids x offsets incl. usize::MAX, node-from-braille over "
-             "positions x 2 codes; all call sequences of length <= %d over a 26-class alphabet (each in a fresh session); every preference name x 19 values and same-name pairs; "
+             "positions x 2 codes; a fixed %d-command navigation walk over every depth-1 term, trigger term and deviation with missing/empty parts in 3 navigation modes; all call sequences of length <= %d over a 26-class alphabet (each in a fresh session); every preference name x 19 values and same-name pairs; "
              "trigger terms under 9 braille code names; nested intent attributes (17 outer x 13 inner values x 4 placements x both recovery settings). After every case a valid expression is set and compared with the fresh-session results. "
              "distinct_nontrivial = distinct (family, label class, outcome signature) combinations"
-             % (len(ELEMENTS), len(TEXTS), "" if tier == "quick" else ", 1000, 3000", len(c11.FULL) + 12, 3 if tier == "quick" else 4),
+             % (len(ELEMENTS), len(TEXTS), "" if tier == "quick" else ", 1000, 3000", len(c11.FULL) + 12, len(NAV_WALK), 3 if tier == "quick" else 4),
         assumptions=["'fails to terminate' is checked as 'no case exceeds the 15 s watchdog'",
                      "overflow checks are on in the executor build: an arithmetic wrap shows up as a panic labelled 'attempt to ... with overflow'",
                      "worker stacks are 8 MiB (a main-thread sized stack)"],
